@@ -56,4 +56,12 @@ def utf16UnitsOld : List UInt8 → Option (List Nat)
   | [_] => none
   | a :: b :: rest => (utf16UnitsOld rest).map ((a.toNat + 256 * b.toNat) :: ·)
 
+/-- key_keeper.rs poll loop: what remains of the poll interval after a notify was handled, in milliseconds
+(`u128`). The code as it was: plain subtraction, which underflows (panic with overflow checks) when handling
+the notify took the loop past the interval -/
+def restOfSleepOld (sleep slept : Nat) : Option Nat := if slept ≤ sleep then some (sleep - slept) else none
+
+/-- the code as it is: `saturating_sub` -/
+def restOfSleep (sleep slept : Nat) : Nat := sleep - slept
+
 end Gpa.Truncate
